@@ -938,6 +938,14 @@ func (env *SpecEnv) call(x *CExpr) (SVal, error) {
 			return SVal{}, fmt.Errorf("%s: element sort %s vs %s", x.Name, el.Sort, xv.Sort)
 		}
 		return SVal{T: fmt.Sprintf("(exists ((%s Int)) (and (<= 0 %s) (< %s %s) (= %s %s)))", iv, iv, iv, bound.T, el.T, xv.T), Typ: boolT, Sort: "Bool"}, nil
+	case "atpre": // atpre(e): e evaluated in the heap at function entry, with the current values of variables
+		if env.oldHeap == nil {
+			return SVal{}, fmt.Errorf("atpre: no entry heap in this context")
+		}
+		n := *env
+		n.heap = env.oldHeap
+		n.inOld = false
+		return (&n).tr(x.Args[0])
 	case "atentry": // atentry(e): e evaluated in the heap with which the current loop was entered
 		if env.loop == nil || env.loop.entryHeap == nil {
 			return SVal{}, fmt.Errorf("atentry outside a loop invariant (or loop with several entry edges)")
@@ -1037,9 +1045,7 @@ func (env *SpecEnv) call(x *CExpr) (SVal, error) {
 		}
 		el := a.Typ.Underlying().(*types.Slice).Elem()
 		c := W.elemComp(el)
-		W.declare("strofarr", "(declare-fun strofarr ((Array Int Int) Int Int) Str)\n"+
-			"(assert (forall ((a (Array Int Int)) (o Int) (n Int)) (! (=> (>= n 0) (= (slen (strofarr a o n)) n)) :pattern ((strofarr a o n)))))\n"+
-			"(assert (forall ((a (Array Int Int)) (o Int) (n Int) (i Int)) (! (=> (and (<= 0 i) (< i n)) (= (sat (strofarr a o n) i) (select a (+ o i)))) :pattern ((sat (strofarr a o n) i)))))")
+		W.declareStrOfArr()
 		return SVal{T: app("strofarr", app("select", env.heapOf(c), app("sbase", a.T)), app("soff", a.T), app("slength", a.T)), Typ: types.Typ[types.String], Sort: "Str"}, nil
 	}
 	if strings.HasPrefix(x.Name, ".") {
